@@ -179,6 +179,35 @@ class Impl:
         return log, residual, exc
 
 
+def evaluate_limit(ctx, cases, res):
+    """kind 'limit': ONE message whose total length is exactly the protocol limit 2^27 (or just below), behind a one-line
+    handshake, cut into a few reads - far too long for the extracted model; judged by the property's own oracle: the
+    receiver delivers exactly the message that was sent, once, byte-identical.  The case is symbolic (total, byte order,
+    cuts); the bytes are built on the fly."""
+    import struct
+    from harness import c04_msgs as M
+    im = Impl()
+    for c in cases:
+        _, total, le, cuts = c
+        hdr = bytearray(M.build(le, 1, 0, 5, [(1, 'o', '/a'), (3, 's', 'M'), (8, 'g', 'ay')], '', []))
+        n = total - len(hdr) - 4
+        struct.pack_into('<I' if le else '>I', hdr, 4, n + 4)
+        raw = bytes(hdr) + struct.pack('<I' if le else '>I', n) + b'\x07' * n
+        assert len(raw) == total
+        stream = b'GO\r\n' + raw
+        reads = chunks_of(stream, sorted(set(min(len(stream) - 1, max(1, x)) for x in cuts)))
+        log, residual, exc = im.run(True, None, [0, [[b'GO', 1]]], reads)
+        got = [e for e in log if e[0] == 2]
+        res.count(['limit', total, le, cuts], nontrivial=True)
+        ok = exc is None and len(got) == 1 and len(got[0][1]) == total and bytes(got[0][1]) == raw and residual == b''
+        if not ok:
+            res.violate(['limit', total, le, cuts],
+                        'a message of %d bytes (limit 2^27 = 134217728) sent behind the handshake in %d reads: delivered %d message(s)%s%s'
+                        % (total, len(reads), len(got), ', exception %s' % exc if exc else '',
+                           ', connection closed' if residual is None and not exc else ''), 'limit-size-message-not-delivered')
+        del raw, stream, reads, log, got
+
+
 def chunks_of(stream, cuts):
     out = []
     pos = 0
@@ -260,8 +289,14 @@ def raise_stack_limit():
 
 def evaluate(ctx, cases, res):
     raise_stack_limit()
-    im = Impl()
     cases = [c for c in cases]
+    lim = [c for c in cases if c and c[0] == 'limit']
+    if lim:
+        evaluate_limit(ctx, lim, res)
+    cases = [c for c in cases if not (c and c[0] == 'limit')]
+    if not cases:
+        return
+    im = Impl()
     dist = res.extra.setdefault('input_distribution', {
         'partitions': 0, 'client_side': 0, 'server_side': 0, 'with_messages': 0, 'big_endian_msgs': 0,
         'little_endian_msgs': 0, 'crlf_inside_message_bytes': 0, 'handshake_and_message_in_one_read': 0,
@@ -745,6 +780,8 @@ def gen_cases(ctx):
 
 
 def run(ctx, res):
+    evaluate_limit(ctx, [['limit', 2 ** 27, True, [5, 21, 2 ** 26]], ['limit', 2 ** 27, False, [5 + 16, 2 ** 27]],
+                         ['limit', 2 ** 27 - 8, True, [4, 5 + 2 ** 27 - 9]]], res)
     cases, info = gen_cases(ctx)
     res.rule = ('a case is one stream (optional NUL, authentication lines, messages of both byte orders built by an '
                 'independent encoder, possibly a partial or malformed tail) with a scripted authenticator and one or many '
